@@ -1040,10 +1040,10 @@ func (env *SpecEnv) call(x *SCall) (Val, error) {
 			return Val{}, err
 		}
 		return Val{T: "(select " + env.vc.heapGet(env.cur, env.ex.visitedOf(rng)) + " " + v.T + ")", S: SBool, Typ: boolT}, nil
-	case "evalcount":
+	case "evalcount", "evaltrue", "evalfalse":
 		// evalcount(f): number of calls made so far through function value f (calls through a function type under contract)
 		if len(x.Args) != 1 {
-			return Val{}, fmt.Errorf("evalcount takes one argument")
+			return Val{}, fmt.Errorf("%s takes one argument", x.Fun)
 		}
 		v, err := env.term(x.Args[0])
 		if err != nil {
@@ -1052,7 +1052,13 @@ func (env *SpecEnv) call(x *SCall) (Val, error) {
 		if v.S != SInt {
 			return Val{}, fmt.Errorf("evalcount of a non-function value (sort %s)", v.S)
 		}
-		return Val{T: "(select " + env.vc.heapGet(env.cur, env.vc.evalCountHeap()) + " " + v.T + ")", S: SInt, Typ: intT}, nil
+		var eh *heapInfo
+		for _, h := range env.vc.evalHeaps() {
+			if h.name == "HG_"+x.Fun {
+				eh = h
+			}
+		}
+		return Val{T: "(select " + env.vc.heapGet(env.cur, eh) + " " + v.T + ")", S: SInt, Typ: intT}, nil
 	case "fresh":
 		// fresh(r): reference r was not allocated at function entry
 		v, err := env.term(x.Args[0])
